@@ -162,11 +162,12 @@ def c17_r2(ctx: Ctx, rule):
         if not ok_order:
             res.fail(rule.id, "commit-not-after-write::%s" % norm(c)[:40], ctx.loc(q, c), "the commit is not dominated by the completed write and close of the temporary file",
                      "an unfinished temporary file is moved over the destination")
-        # reachable from an exceptional exit of the write / close?
+        # reachable from an exceptional exit of the write / close?  (a `finally:` body exists twice in the CFG)
         bad = None
+        copies = g.node_containing(c)
         for w in writes + closes + [n for n in g.nodes if n.stmt is not None and any(isinstance(x, ast.Call) and call_name(x) in ("serialize", "write", "close") for e in cfgmod.header_exprs(n.stmt) for x in ast.walk(e))]:
             for t, lab in w.succ:
-                if lab in ("exc", "raise") and (t is cn or g.exists_path(t, cn)):
+                if lab in ("exc", "raise") and any(t is cc or g.exists_path(t, cc) for cc in copies):
                     bad = w
         res.ob("commit %s: unreachable from a failed write/close: %s" % (norm(c)[:40], bad is None))
         if bad is not None:
